@@ -274,6 +274,14 @@ _W11_GUARDS = {
     "C19": {"providers-built-with-the-public-constructors": 100},
     "C20": {"providers-from-one-shared-config": 100},
 }
-for _gs in (_W9_GUARDS, _W10_GUARDS, _W11_GUARDS):
+# ... and with the twelfth wave (undirected, another clause; DESIGN.md 12.19)
+_W12_GUARDS = {
+    "C05": {"assertion-for-a-look-alike-audience": 400, "subject-with-characters-that-escaping-rewrites": 200},
+    "C06": {"subject-with-characters-that-escaping-rewrites": 500},
+    "C08": {"subject-with-characters-that-escaping-rewrites": 200},
+    "C09": {"fresh-codes-redeemed-with-verifier-anomalies": 300},
+    "C15": {"actor-token-without-its-type": 300},
+}
+for _gs in (_W9_GUARDS, _W10_GUARDS, _W11_GUARDS, _W12_GUARDS):
     for _p, _g in _gs.items():
         PROPS[_p]["min_probes"]["quick"].update(_g)
